@@ -196,7 +196,9 @@ func Any(r *rand.Rand, size int) KeySet {
 	if size >= 200 && r.Intn(14) == 0 {
 		return WideBig(r, size)
 	}
-	switch r.Intn(11) {
+	switch r.Intn(12) {
+	case 11:
+		return PrefixKeyLongRun(r, size)
 	case 9:
 		return BigAscii(r, size)
 	case 10:
@@ -451,4 +453,28 @@ func WideBig(r *rand.Rand, maxKeys int) KeySet {
 		}
 	}
 	return KeySet{uniqSorted(m), "widebig"}
+}
+
+// PrefixKeyLongRun: a key P with a long single-branch run (9..40 bytes) that is
+// itself indexed and is a proper prefix of further keys {P, P+a, P+b...},
+// optionally below siblings: queries that end inside the run exercise the
+// comparison of a query shorter than a stored prefix.
+func PrefixKeyLongRun(r *rand.Rand, maxKeys int) KeySet {
+	m := map[string]struct{}{}
+	groups := 1 + r.Intn(3)
+	for g := 0; g < groups; g++ {
+		al := alphabets[r.Intn(2)]
+		p := randStr(r, al, 9, 40)
+		if groups > 1 {
+			p = string([]byte{byte(0x41 + g)}) + p
+		}
+		m[p] = struct{}{}
+		for i := 0; i < 2+r.Intn(3); i++ {
+			m[p+randStr(r, al, 1, 2)] = struct{}{}
+		}
+		if len(m) >= maxKeys {
+			break
+		}
+	}
+	return KeySet{uniqSorted(m), "prefixkey-longrun"}
 }
